@@ -1,5 +1,6 @@
 (* sched_drv.ml — replays sched-engine ops on the extracted DB/Model.v; one line per op.
    ops:  tables <n> | actor <name> w <tabs> <writes> commit|abort <reg> <done> | actor <name> reg
+         actor <name> close <tab> | actor <name> gc <tabs>
          watch <tab> | iwatch <tab> | step <name>
    Actors must be declared before the first step; `tables` first. *)
 let pc_s = function
@@ -23,6 +24,7 @@ let () =
   let st = ref None in
   let watches = ref [] (* model watch ids in registration order; -1 = static closed channel *) in
   let eager = ref [] (* indexes of actors forced into a held lock *) in
+  let bare = ref [] (* actors whose transaction is internal to the implementation (close, gc) *) in
   let get_st () = match !st with
     | Some s -> s
     | None -> let s = init_st (nat_of_int !ntab) (List.map snd !actors) in st := Some s; s in
@@ -35,12 +37,21 @@ let () =
   read_lines_iter (fun line ->
     match split_ws line with
     | [] -> ()
-    | "#case" :: _ -> print_endline line; ntab := 0; actors := []; st := None; watches := []; eager := []
+    | "#case" :: _ -> print_endline line; ntab := 0; actors := []; st := None; watches := []; eager := []; bare := []
     | ["tables"; n] -> ntab := int_of_string n; print_endline "ok"
     | ["actor"; name; "w"; tabs; writes; ca; reg; dn] ->
       let id = n_of_int (List.length !actors + 1) in
       actors := !actors @ [(name, (id, KWriter (parse_nats tabs, parse_nats writes, (ca = "commit"), parse_pairs reg, parse_pairs dn)))];
       print_endline "ok"
+    | ["actor"; name; ("close" | "gc"); tabs] ->
+      (* ChangeIterator.Close and the graveyard worker go through WriteTxn(tabs) ... Commit without writing any
+         index a reader can see: a writer with an empty write set whose txn view / returned snapshot the harness
+         cannot observe *)
+      if List.exists (fun t -> int_of_nat t >= !ntab) (parse_nats tabs) then print_endline "E bad table" else begin
+      let id = n_of_int (List.length !actors + 1) in
+      actors := !actors @ [(name, (id, KWriter (parse_nats tabs, [], true, [], [])))];
+      bare := name :: !bare;
+      print_endline "ok" end
     | ["actor"; name; "reg"] ->
       let id = n_of_int (List.length !actors + 1) in
       actors := !actors @ [(name, (id, KRegistrar))]; print_endline "ok"
@@ -93,6 +104,7 @@ let () =
         st := Some !cur;
         let a = List.nth s'.s_actors i in
         let extra = match a.a_pc, a.a_kind with
+          | _ when List.mem name !bare -> ""
           | (PCommitIdx | PAbortBefore), KWriter _ ->
             let rec take n l = if n = 0 then [] else match l with [] -> [] | x :: r -> x :: take (n - 1) r in
             " view=[" ^ vers_s (take !ntab a.a_entries) ^ "]"
